@@ -43,7 +43,7 @@ func quoteEscaper() *strings.Replacer { return strings.NewReplacer("\\", "\\\\",
 func scenUPL(s *sched.Sim, cfg Config, res *Result) {
 	prop := "C19"
 	s.Policy = drawPolicy(s)
-	on, off := parseFeat(cfg.Features)
+	_, off := parseFeat(cfg.Features)
 	wf := worldFeatures(s, cfg)
 	wf.Mutations, wf.Uploads = true, true
 	of := opFeatures(s, cfg)
@@ -59,7 +59,7 @@ func scenUPL(s *sched.Sim, cfg Config, res *Result) {
 		return
 	}
 	twoPaths := s.T.Bool(1, 3) && !off["file-two-paths"]
-	crossVarTwoPaths := on["file-two-paths-across-variables"]
+	crossVarTwoPaths := !off["file-two-paths-across-variables"]
 	sharedVar := s.T.Bool(1, 2)
 	if off["shared-file-variable"] {
 		sharedVar = false
@@ -173,10 +173,7 @@ func scenUPL(s *sched.Sim, cfg Config, res *Result) {
 			decls = append(decls, "$in: FileInput")
 			roots = append(roots, "r1: mUploadIn(input: $in)"+sel("mUploadIn"))
 			u.fields = append(u.fields, "mUploadIn")
-			// one variables object used by root fields of two services is an open known finding
-			// (the first extraction nulls the shared object): only same-owner pairs by default
-			sameOwner := w.Owner("Mutation", "mUploadIn") == w.Owner("Mutation", "mUploadIn2")
-			if sharedVar && kind == 3 && (sameOwner || on["shared-file-variable"]) {
+			if sharedVar && kind == 3 {
 				// the same variable used by a second root field (possibly owned by another service)
 				roots = append(roots, "r2: mUploadIn2(input: $in)"+sel("mUploadIn2"))
 				u.fields = append(u.fields, "mUploadIn2")
